@@ -1,6 +1,7 @@
 import MJ.Model.Cmp
 import MJ.Model.Coll
 import MJ.Model.CollV
+import MJ.Model.CollX
 /-! Line driver for C07.
 
 usage: `drive_c07 <btree|index>`; stdin lines (anything after a TAB is ignored):
@@ -13,7 +14,7 @@ usage: `drive_c07 <btree|index>`; stdin lines (anything after a TAB is ignored):
 * `lk vm <n> <key> <probe>`      answers `get=<0|1> attr=<0|1|->[ h]`: `get_value(probe)` and, for a string
                                   probe, `get_value_by_str(probe)` on the `n`-entry map holding `key`
 -/
-open MJ MJ.Val MJ.Cmp MJ.Coll MJ.CollV
+open MJ MJ.Val MJ.Cmp MJ.Coll MJ.CollV MJ.CollX
 
 namespace C07Drive
 
@@ -67,6 +68,8 @@ partial def parseV (m : Mode) : List Char → Option (V × List Char)
   | '<' :: '!' :: rest => (parseItems m '>' rest).map fun (xs, r) => (.iter xs, r)
   | '<' :: rest => (parseItems m '>' rest).map fun (xs, r) => (.iter xs, r)
   | '{' :: '=' :: rest => (parsePairs m rest).map fun (ps, r) => (.map ps, r)
+  -- a namespace object keeps its (string) keys in key order whatever the map type of the build
+  | '{' :: '#' :: rest => (parsePairs m rest).map fun (ps, r) => (mkMap .btree ps, r)
   | '{' :: rest => (parsePairs m rest).map fun (ps, r) => (mkMap m ps, r)
   | cs =>
     let a := cs.takeWhile (fun c => !isAtomEnd c)
@@ -154,7 +157,7 @@ partial def beqV : V → V → Bool
   | .map a, .map b => a.length == b.length && (a.zip b).all fun (p, q) => beqV p.1 q.1 && beqV p.2 q.2
   | _, _ => false
 
-def letters : List Char := "0123456789abcd".toList
+def letters : List Char := "0123456789abcdefgh".toList
 
 structure Al where
   vals : Array V := #[]
@@ -188,6 +191,37 @@ def showItems (m : Mode) (al : Al) (wrap : Bool) (vs : List V) : String :=
 
 def itemsOf (m : Mode) (al : Al) (word : String) (wrap : Bool) : List V :=
   (word.toList.zipIdx).map fun (c, i) => if wrap then wrapItem m (al.get c) i else al.get c
+
+def strP : List Nat := [112]          -- "p"
+
+/-- items of the path cases: every third lacks `p`, every fifth has a `p` that is not a map -/
+def itemsP (m : Mode) (al : Al) (word : String) : List V :=
+  (word.toList.zipIdx).map fun (c, i) =>
+    if i % 3 == 2 then bareItem m i
+    else if i % 5 == 4 then mkMap m [(.str strP, .num (.i64 7)), (.str strId, .num (.u64 i))]
+    else mkMap m [(.str strP, mkMap m [(.str strK, al.get c)]), (.str strId, .num (.u64 i))]
+
+def showOptNat : Option Nat → String
+  | some n => toString n
+  | none => "-"
+
+/-- `zip`: the second operand is a lazy iterable (length known only when it is empty) -/
+def runZip (m : Mode) (al : Al) (words : List String) : String :=
+  let xss := words.map fun wd => itemsOf m al wd false
+  let lens := (xss.zipIdx).map fun (xs, i) => if i == 1 && !xs.isEmpty then none else some xs.length
+  "ok:" ++ ",".intercalate ((zipV xss).map fun t => showItems m al false t) ++
+    s!" len={showOptNat (zipKnownLen lens)} tuples=1"
+
+/-- `chain` of sequences (`seq`, `tuple`: all operands are sequences) or with a lazy first operand (`mixed`) -/
+def runChain (m : Mode) (al : Al) (kind : String) (words : List String) : String :=
+  let xss := words.map fun wd => itemsOf m al wd false
+  let lens := (xss.zipIdx).map fun (xs, i) => if kind == "mixed" && i == 0 && !xs.isEmpty then none else some xs.length
+  let all := chainSeq xss
+  let idx := String.join ((List.range (all.length + 1)).map fun i =>
+    match (if kind == "mixed" then all[i]? else chainIdx xss i) with
+    | some v => al.letter v
+    | none => "u")
+  s!"ok:{showItems m al false all} kind={if kind == "mixed" then "Iterable" else "Seq"} len={showOptNat (chainLen lens)} idx={idx}"
 
 def testOf (s : String) : Test :=
   match s with
@@ -252,49 +286,158 @@ def runFv (m : Mode) (al : Al) (f : List String) : String :=
     | some true => "1"
     | some false => "0"
     | none => "e"
+  | ["sortp", cs, rev, word] =>
+    "ok:" ++ showItems m al true (sortPathV m (b cs) (b rev) [.name strP, .name strK] (itemsP m al (w word)))
+  | ["sorti", cs, rev, word] =>
+    let items := ((w word).toList.zipIdx).map fun (c, i) => V.seq [al.get c, .num (.u64 i)]
+    "ok:" ++ ".".intercalate ((sortPathV m (b cs) (b rev) [.idx 0] items).map fun v =>
+      match getIdx m 1 v with
+      | some x => showNum x
+      | none => "?")
+  | ["uniquep", cs, word] =>
+    "ok:" ++ showItems m al true (uniquePathV m lowerAscii (b cs) [.name strP, .name strK] (itemsP m al (w word)))
+  | ["groupbyp", cs, d, word] =>
+    let dflt := if d == "-" then V.undef else al.get d.toList.head!
+    let gs := groupbyPathV m (b cs) [.name strP, .name strK] dflt (itemsP m al (w word))
+    "ok:" ++ ";".intercalate (gs.map fun (g, xs) =>
+      (match g with | .undef => "u" | _ => al.letter g) ++ ":" ++ showItems m al true xs)
+  | ["sum", word] =>
+    match sumV (itemsOf m al (w word) false) with
+    | some (.ok r) => "ok:" ++ toString r.val
+    | some _ => "err:InvalidOperation"
+    | none => "nomodel"
+  | ["zip", a, c] => runZip m al [w a, w c]
+  | ["zip3", a, c, d] => runZip m al [w a, w c, w d]
+  | ["chain", "map", a, c] =>
+    let mk := fun (word : String) (base : Nat) =>
+      match mkMap m (((w word).toList.zipIdx).map fun (ch, i) => (al.get ch, V.num (.u64 (base + i)))) with
+      | .map ps => ps
+      | _ => []
+    let maps := [mk a 0, mk c 10]
+    let keys := chainKeys maps
+    "ok:" ++ ",".intercalate (keys.map fun k => al.letter k ++ "=" ++
+      (match chainGet m maps k with | some v => showNum v | none => "")) ++
+      s!" kind=Map len={keys.length}"
+  | ["chain", kind, a, c] => runChain m al kind [w a, w c]
+  | ["chain3", a, c, d] => runChain m al "seq" [w a, w c, w d]
+  | ["items", word] =>
+    match mkMap m (((w word).toList.zipIdx).map fun (ch, i) => (al.get ch, V.num (.u64 i))) with
+    | .map ps =>
+      let its := itemsV ps
+      let allTuples := its.all fun t => match t with | .tuple _ => true | _ => false
+      "ok:" ++ ",".intercalate ((pairsOf its).map fun (k, v) => al.letter k ++ "=" ++ showNum v) ++ s!" tuples={if allTuples then 1 else 0}"
+    | _ => "bad-case"
+  | ["list", kind, word] =>
+    let items := itemsOf m al (w word) false
+    let c : V := match kind with
+      | "seq" | "oseq" => .seq items
+      | "tuple" => .tuple items
+      | "iter" | "once" => .iter items
+      | "map" => mkMap m (items.map fun k => (k, V.num (.i64 1)))
+      | "omap" => .map (items.map fun k => (k, V.num (.i64 1)))
+      | "str" => .str ((w word).toUTF8.toList.map (·.toNat))
+      | "undef" => .undef
+      | _ => .none
+    match listV c with
+    | some vs =>
+      if kind == "str" then "ok:" ++ String.join (vs.map fun v => match v with
+        | .str bs => String.ofList (bs.map fun n => Char.ofNat n)
+        | _ => "?")
+      else "ok:" ++ showItems m al false vs
+    | none => "err:InvalidOperation"
+  | ["sameas", a, c, inst] =>
+    if sameasV m (inst == "same") (al.get a.toList.head!) (al.get (if inst == "same" then a else c).toList.head!) then "1" else "0"
+  | ["cnt", kind, word, arg] =>
+    let _ := kind
+    s!"ok:{countV m (itemsOf m al (w word) false) (al.get arg.toList.head!)}"
+  | ["pyd", meth, word, arg] =>
+    match mkMap m (((w word).toList.zipIdx).map fun (ch, i) => (al.get ch, V.num (.u64 i))) with
+    | .map ps =>
+      let x := al.get arg.toList.head!
+      let showV := fun (v : V) => match v with | .none => "None" | v => showNum v
+      match meth with
+      | "get" => "ok:" ++ showV (dictGet m ps x none)
+      | "get2" => "ok:" ++ showV (dictGet m ps x (some (.num (.i64 99))))
+      | "keys" => "ok:" ++ showItems m al false (dictKeys ps)
+      | "values" => "ok:" ++ ",".intercalate ((dictValues ps).map showNum)
+      | _ => "ok:" ++ ",".intercalate ((pairsOf (dictItems ps)).map fun (k, v) => al.letter k ++ "=" ++ showNum v)
+    | _ => "bad-case"
   | ["lit", word] =>
     let pairs := ((w word).toList.zipIdx).map fun (c, i) => (al.get c, V.num (.i64 i))
     "ok:" ++ ",".intercalate ((mapLit m pairs).map fun (k, v) => al.letter k ++ "=" ++ showNum v)
   | _ => "bad-case"
 
+/-- a zoo value: inside `V`, or one of the top-level kinds modelled next to it (an invalid value, a plain
+    object with identity and `custom_cmp`) -/
+inductive ZV where
+  | v (x : V)
+  | inv (i : Inv)
+  | obj (o : PObj)
+
 structure St where
-  zoo : Array (Option V) := #[]
-  rzoo : Array (Option V) := #[]
+  zoo : Array (Option ZV) := #[]
+  rzoo : Array (Option ZV) := #[]
   al : Al := {}
 
-def valAnswer (m : Mode) (tag i : String) (ov : Option V) : String :=
+/-- `X.<hex of the detail>`: `Error::new(InvalidOperation, detail)`; `C.<n>_<tag>`: the harness's `VerObj` (one Rust
+    type, `custom_cmp` by `n`, rendered `ver<n, six digits><tag>`); `idx` makes the object id (instance A of zoo
+    entry `i` gets `2i`, instance B `2i+1`: a pair always compares two different objects) -/
+def parseZV (m : Mode) (enc : String) (idx : Nat) : Option ZV :=
+  match enc.splitOn "." with
+  | ["X", h] => some (.inv ⟨0, some (unhex h.toList)⟩)
+  | ["C", rest] =>
+    match rest.splitOn "_" with
+    | n :: tag =>
+      match n.toNat? with
+      | some k =>
+        let digits := toString k
+        let padded := String.ofList (List.replicate (6 - digits.length) '0') ++ digits
+        let text := ("ver" ++ padded ++ "_".intercalate tag).toUTF8.toList.map (·.toNat)
+        some (.obj ⟨2 * idx, 1, some (k : Int), text⟩)
+      | none => none
+    | [] => none
+  | _ =>
+    match parseV m enc.toList with
+    | some (v, []) => some (.v v)
+    | _ => none
+
+def valAnswer (m : Mode) (tag i : String) (ov : Option ZV) : String :=
   match ov with
-  | some v =>
+  | some (.v v) =>
     let len := match v with
       | .map ps => toString ps.length
       | _ => "-"
     s!"{tag} {i}\t{v.kindName} len={len} selfeq={if eqV m v v then 1 else 0} selfcmp={ordChar (cmpV v v)}"
+  | some (.inv a) => s!"{tag} {i}\tInvalid len=- selfeq={if eqInv a a then 1 else 0} selfcmp={ordChar (cmpInv a a)}"
+  | some (.obj o) => s!"{tag} {i}\tPlain len=- selfeq={if eqPObj o o then 1 else 0} selfcmp={ordChar (cmpPObj o o)}"
   | none => s!"{tag} {i}\tnomodel"
 
-def pairAnswer (m : Mode) (case : String) (oa ob : Option V) : String :=
+def pairAnswer (m : Mode) (case : String) (oa ob : Option ZV) : String :=
   match oa, ob with
-  | some a, some b =>
+  | some (.v a), some (.v b) =>
     let h := if hashBytes a == hashBytes b then 1 else 0
     let dep := if m == .index && (hashDep a b) then " h" else ""
     s!"{case}\t{ordChar (cmpV a b)} {if eqV m a b then 1 else 0} {h}{dep}"
+  | some (.inv a), some (.inv b) =>
+    s!"{case}\t{ordChar (cmpInv a b)} {if eqInv a b then 1 else 0} {if hkeyInv a == hkeyInv b then 1 else 0}"
+  | some (.obj a), some (.obj b) =>
+    -- the second operand is instance B: another object (plain objects feed the hasher nothing but the tuple flag)
+    let b' := { b with id := b.id + 1 }
+    s!"{case}\t{ordChar (cmpPObj a b')} {if eqPObj a b' then 1 else 0} 1"
   | _, _ => s!"{case}\tnomodel"
 
 def handle (m : Mode) (st : St) (line : String) : St × String :=
   let case := (line.splitOn "\t").head!
   match case.trimAscii.toString.splitOn " " with
   | ["val", i, enc] =>
-    let ov := match parseV m enc.toList with
-      | some (v, []) => some v
-      | _ => none
+    let ov := parseZV m enc st.zoo.size
     ({ st with zoo := st.zoo.push ov }, valAnswer m "val" i ov)
   | ["pair", i, j] =>
     match i.toNat?, j.toNat? with
     | some i', some j' => (st, pairAnswer m case (st.zoo[i']!) (st.zoo[j']!))
     | _, _ => (st, s!"{case}\tbad-case")
   | ["rval", b, i, enc] =>
-    let ov := match parseV m enc.toList with
-      | some (v, []) => some v
-      | _ => none
+    let ov := parseZV m enc (if i == "0" then 0 else st.rzoo.size)
     let rz := if i == "0" then #[ov] else st.rzoo.push ov
     ({ st with rzoo := rz }, valAnswer m s!"rval {b}" i ov)
   | ["rpair", _b, i, j] =>
